@@ -251,6 +251,22 @@ def r2_results(ctx):
             ctx.ok("C18.R2", L, "results: returned as uploaded, per job and per dataset (colliding printed forms kept apart), unknown -> error")
     except _Stuck as e:
         ctx.undecided("C18.R2", L, str(e))
+    # a progress request naming an unknown job fails (handle_fe turns the failure into an error response)
+    try:
+        j1, j2, w0 = _two_jobs(repo)
+        pf = repo.func(f"{R}.JobRouter.progress_of")
+        for ids in (["nobody"], [j1, "nobody"]):
+            ps = Interp(repo, inline=_INL).explore(pf, env=w0, args={"job_ids": list(ids)})
+            ctx.evals(len(ps))
+            if any(p.exit[0] != "raise" for p in ps):
+                ctx.violation("C18.R2", pf.qual, loc(pf), "progress of an unknown job",
+                              f"progress_of({ids}) with jobs {{j1, j2}} known returns {[vkey(p.exit[1])[:60] for p in ps if p.exit[0] == 'return']} instead of failing: the frontend gets "
+                              f"a response without an error for a job that does not exist")
+                break
+        else:
+            ctx.ok("C18.R2", loc(pf), "progress_of: an unknown job id (alone or among known ones) -> error")
+    except _Stuck as e:
+        ctx.undecided("C18.R2", L, str(e))
     # unknown job -> error, nothing created
     try:
         j1, j2, w0 = _two_jobs(repo)
@@ -390,3 +406,5 @@ def r4_frontend(ctx):
 
 
 RULES = [r1_progress, r2_results, r3_job_table, r4_frontend]
+from .common import lazy  # noqa: E402
+RULES.append(lazy("C17", "r7_result_codec", "a result is returned exactly as uploaded: encoder and decoder of its text form are an inverse pair"))
